@@ -3,8 +3,8 @@
    (tied to the code by the correspondence run of harness/c12.py). *)
 From Coq Require Import List ZArith Bool String Reals.
 From PySMT.core Require Import Syntax Sem.
-From PySMT.models Require Import TypeChecker Oracles.
-From PySMT.proofs Require Import Coincidence Oracles_proofs.
+From PySMT.models Require Import TypeChecker Oracles OraclesCustom.
+From PySMT.proofs Require Import Coincidence Oracles_proofs OraclesCustom_proofs.
 
 (* free symbols = the textbook definition (binders remove, applied function names count) *)
 Theorem C12_fv_def : forall t v, In v (fv t) <-> free_in v t.
@@ -44,9 +44,19 @@ Proof. exact types_walk_def. Qed.
 Theorem C12_get_types_def : forall t s,
   In s (get_types t) <-> exists u, sort_occurs u t /\ In s (subtypes u).
 Proof. exact get_types_def. Qed.
+(* custom_only=True: exactly the members of that closed set that are not SMT-LIB built-in sorts
+   (so a user sort occurring only as index / element of an array sort, at any depth, is reported) *)
+Theorem C12_get_types_custom_def : forall t s,
+  In s (get_types_custom t) <->
+  (exists u, sort_occurs u t /\ In s (subtypes u)) /\ is_base_type s = false.
+Proof. exact get_types_custom_def. Qed.
+Theorem C12_get_types_custom_filter : forall t s,
+  In s (get_types_custom t) <-> In s (get_types t) /\ is_base_type s = false.
+Proof. exact get_types_custom_filter. Qed.
 
 Print Assumptions C12_fv_def.
 Print Assumptions C12_get_types_def.
+Print Assumptions C12_get_types_custom_def.
 Print Assumptions C12_coincidence.
 Print Assumptions C12_atoms_truth_functional.
 Print Assumptions C12_qf_def.
